@@ -4,6 +4,9 @@ CONSTANTS
   CopyOnReuse = FALSE
   GuardTypedNil = TRUE
   BinMarshalerOpts = TRUE
+  ClonesCapLimited = TRUE
+  ParseErrorWins = TRUE
+  SharedSkipCounter = FALSE
   MaxRecs = 2
   MaxFields = 2
   FieldIds = {1, 2}
